@@ -104,8 +104,7 @@ func (r *Run) Sample(format string, a ...any) {
 
 // Item opens an enumeration item; it returns false when a Focus is set and this
 // is another item (so replay and shrinking execute only the failing one).
-func (r *Run) Item(format string, a ...any) bool {
-	id := fmt.Sprintf(format, a...)
+func (r *Run) Item(id string) bool {
 	if r.Focus != "" && r.Focus != id {
 		return false
 	}
